@@ -79,7 +79,7 @@ func genStrBody(r *rng) string {
 				sb.WriteByte(hexDigits[r.intn(len(hexDigits))])
 			}
 		case 2:
-			sb.WriteString(pick(r, []string{"\\ud800", "\\udbff", "\\udc00", "\\udfff", "\\ud83d\\ude00", "\\ud800\\udc00", "\\udbff\\udfff", "\\ud800\\ud800", "\\udc00\\ud800", "\\ud800"+"x", "\\ud800"+"\\n", "\\ud800\\u0041", "\\uD83D\\uDE00", "\\ud7ff\\udc00", "\\ue000\\udc00", "\\u0000", "\\u001f", "\\u007f", "\\u0080", "\\u07ff", "\\u0800", "\\uffff", "\\ufffd", "\\u2028", "\\u2029", "\\u003c", "\\ud800\\udbff", "\\ud800\\ue000", "\\udbff\\udc00", "\\ud800\\udfff", "\\udbff\\udbff"}))
+			sb.WriteString(pick(r, []string{"\\ud800", "\\udbff", "\\udc00", "\\udfff", "\\ud83d\\ude00", "\\ud800\\udc00", "\\udbff\\udfff", "\\ud800\\ud800", "\\udc00\\ud800", "\\ud800" + "x", "\\ud800" + "\\n", "\\ud800\\u0041", "\\uD83D\\uDE00", "\\ud7ff\\udc00", "\\ue000\\udc00", "\\u0000", "\\u001f", "\\u007f", "\\u0080", "\\u07ff", "\\u0800", "\\uffff", "\\ufffd", "\\u2028", "\\u2029", "\\u003c", "\\ud800\\udbff", "\\ud800\\ue000", "\\udbff\\udc00", "\\ud800\\udfff", "\\udbff\\udbff"}))
 		case 3, 4:
 			c := genUTF8Char(r)
 			if len(c) == 1 && (c[0] < 0x20 || c[0] == '"' || c[0] == '\\') {
